@@ -500,6 +500,8 @@ def main(pid, argv=None):
         if pid == "C17":
             check_modes(ck, c)
     ck.coverage["disagreements"] = ndis
+    if pid in ("C01", "C02") and (not ck.replay or doc_level):
+        unmodelled_composites_roundtrip(ck)
     if pid == "C05" and (not ck.replay or doc_level):
         somersault_decode(ck)
         unmodelled_composites_decode(ck)
@@ -769,6 +771,8 @@ UNMODELLED_DOC = ('<?xml version="1.0" encoding="UTF-8"?><ODX MODEL-VERSION="2.2
  '<DOP-REF ID-REF="u8"/></PARAM><PARAM xsi:type="VALUE"><SHORT-NAME>d</SHORT-NAME><BYTE-POSITION>1</BYTE-POSITION><DOP-REF ID-REF="u8"/></PARAM></PARAMS></STRUCTURE>'
  '<STRUCTURE ID="item"><SHORT-NAME>item</SHORT-NAME><PARAMS><PARAM xsi:type="VALUE"><SHORT-NAME>m</SHORT-NAME><DOP-REF ID-REF="mux"/></PARAM></PARAMS></STRUCTURE>'
  '<STRUCTURE ID="item2"><SHORT-NAME>item2</SHORT-NAME><PARAMS><PARAM xsi:type="VALUE"><SHORT-NAME>m</SHORT-NAME><DOP-REF ID-REF="mux2"/></PARAM></PARAMS></STRUCTURE>'
+ '<STRUCTURE ID="s1b"><SHORT-NAME>s1b</SHORT-NAME><PARAMS><PARAM xsi:type="VALUE"><SHORT-NAME>d</SHORT-NAME><BYTE-POSITION>0</BYTE-POSITION>'
+ '<DOP-REF ID-REF="u8"/></PARAM></PARAMS></STRUCTURE>'
  '</STRUCTURES>'
  '<END-OF-PDU-FIELDS><END-OF-PDU-FIELD ID="eop"><SHORT-NAME>eop</SHORT-NAME><BASIC-STRUCTURE-REF ID-REF="item"/></END-OF-PDU-FIELD>'
  '<END-OF-PDU-FIELD ID="eop2"><SHORT-NAME>eop2</SHORT-NAME><BASIC-STRUCTURE-REF ID-REF="item2"/></END-OF-PDU-FIELD></END-OF-PDU-FIELDS>'
@@ -779,6 +783,10 @@ UNMODELLED_DOC = ('<?xml version="1.0" encoding="UTF-8"?><ODX MODEL-VERSION="2.2
  '<MUX ID="mux2"><SHORT-NAME>mux2</SHORT-NAME><BYTE-POSITION>1</BYTE-POSITION><SWITCH-KEY><BYTE-POSITION>0</BYTE-POSITION><BIT-POSITION>0</BIT-POSITION>'
  '<DATA-OBJECT-PROP-REF ID-REF="u8"/></SWITCH-KEY>'
  '<CASES><CASE><SHORT-NAME>c1</SHORT-NAME><STRUCTURE-REF ID-REF="s2"/><LOWER-LIMIT>1</LOWER-LIMIT><UPPER-LIMIT>2</UPPER-LIMIT></CASE></CASES></MUX>'
+ '<MUX ID="mux3"><SHORT-NAME>mux3</SHORT-NAME><BYTE-POSITION>1</BYTE-POSITION><SWITCH-KEY><BYTE-POSITION>0</BYTE-POSITION><BIT-POSITION>0</BIT-POSITION>'
+ '<DATA-OBJECT-PROP-REF ID-REF="u8"/></SWITCH-KEY>'
+ '<CASES><CASE><SHORT-NAME>with_data</SHORT-NAME><STRUCTURE-REF ID-REF="s1b"/><LOWER-LIMIT>1</LOWER-LIMIT><UPPER-LIMIT>1</UPPER-LIMIT></CASE>'
+ '<CASE><SHORT-NAME>nothing</SHORT-NAME><LOWER-LIMIT>2</LOWER-LIMIT><UPPER-LIMIT>2</UPPER-LIMIT></CASE></CASES></MUX>'
  '</MUXS></DIAG-DATA-DICTIONARY-SPEC>'
  '<REQUESTS>'
  '<REQUEST ID="rq1"><SHORT-NAME>rq1</SHORT-NAME><PARAMS><PARAM xsi:type="CODED-CONST"><SHORT-NAME>sid</SHORT-NAME><BYTE-POSITION>0</BYTE-POSITION>'
@@ -790,6 +798,10 @@ UNMODELLED_DOC = ('<?xml version="1.0" encoding="UTF-8"?><ODX MODEL-VERSION="2.2
  '<REQUEST ID="rq3"><SHORT-NAME>rq3</SHORT-NAME><PARAMS><PARAM xsi:type="CODED-CONST"><SHORT-NAME>sid</SHORT-NAME><BYTE-POSITION>0</BYTE-POSITION>'
  '<CODED-VALUE>36</CODED-VALUE><DIAG-CODED-TYPE BASE-DATA-TYPE="A_UINT32" xsi:type="STANDARD-LENGTH-TYPE"><BIT-LENGTH>8</BIT-LENGTH></DIAG-CODED-TYPE></PARAM>'
  '<PARAM xsi:type="VALUE"><SHORT-NAME>m</SHORT-NAME><BYTE-POSITION>1</BYTE-POSITION><DOP-REF ID-REF="mux"/></PARAM></PARAMS></REQUEST>'
+ '<REQUEST ID="rq4"><SHORT-NAME>rq4</SHORT-NAME><PARAMS><PARAM xsi:type="CODED-CONST"><SHORT-NAME>sid</SHORT-NAME><BYTE-POSITION>0</BYTE-POSITION>'
+ '<CODED-VALUE>37</CODED-VALUE><DIAG-CODED-TYPE BASE-DATA-TYPE="A_UINT32" xsi:type="STANDARD-LENGTH-TYPE"><BIT-LENGTH>8</BIT-LENGTH></DIAG-CODED-TYPE></PARAM>'
+ '<PARAM xsi:type="VALUE"><SHORT-NAME>m</SHORT-NAME><BYTE-POSITION>1</BYTE-POSITION><DOP-REF ID-REF="mux3"/></PARAM>'
+ '<PARAM xsi:type="VALUE"><SHORT-NAME>tail</SHORT-NAME><BYTE-POSITION>3</BYTE-POSITION><DOP-REF ID-REF="u8"/></PARAM></PARAMS></REQUEST>'
  '</REQUESTS></BASE-VARIANT></BASE-VARIANTS></DIAG-LAYER-CONTAINER></ODX>')
 
 
@@ -821,6 +833,35 @@ def unmodelled_composites_decode(ck):
                              {"document": "harness/codec_checks.py UNMODELLED_DOC", "request": rq.short_name, "msg": m.hex()})
                 break
     ck.coverage["multiplexer_messages"] = n
+
+
+def unmodelled_composites_roundtrip(ck):
+    """C01 / C02 (oracle only) for a multiplexer, which the codec model does not cover: the wire format of a request with a
+    multiplexer between two positioned parameters (case with and without structure) and its round trip"""
+    import hier_common as hc
+    try:
+        db = hc.load_docs([UNMODELLED_DOC])
+    except Exception as e:  # noqa
+        ck.note_broken(f"cannot load the multiplexer document: {type(e).__name__}: {e}")
+        return
+    rq = [r for r in db.diag_layers[0].diag_layer_raw.requests if r.short_name == "rq4"][0]
+    for case, key, data in (("with_data", 1, 0x5A), ("nothing", 2, None), ("with_data", 1, 0), ("nothing", 2, None)):
+        for tail in (0xAA, 0x00, 0xFF):
+            mv = (case, {"d": data} if data is not None else {})
+            want = bytes([0x25, key, data if data is not None else 0, tail])
+            r, e, _ = cc.guarded(lambda: bytes(rq.encode(m=mv, tail=tail)), timeout=3)
+            ck.count(("muxrt", case, data, tail))
+            rep_ = {"document": "harness/codec_checks.py UNMODELLED_DOC", "request": "rq4", "value": repr(mv), "tail": tail}
+            if e is not None:
+                ck.violation(f"encoding rq4 with m={mv!r}, tail={tail} raised {type(e).__name__}: {e}", rep_)
+                return
+            if r != want:
+                ck.violation(f"rq4 with m={mv!r}, tail={tail:#x} is encoded as {r.hex()}, the ODX layout prescribes {want.hex()}", rep_)
+                return
+            d, e2, _ = cc.guarded(lambda: rq.decode(r), timeout=3)
+            if e2 is not None or d.get("tail") != tail or d.get("m", (None,))[0] != case:
+                ck.violation(f"rq4: decode(encode(m={mv!r}, tail={tail})) = {d!r} {e2!r}", rep_)
+                return
 
 
 def somersault_decode(ck):
